@@ -15,7 +15,7 @@
       connection or channel that ended early;
     - [brun]: [rch::base::Receiver::recv] run over that schedule;
     - [outside_known_class]: no unfinished message carries a complete encoding (finding F12). *)
-From Remoc Require Import Lib.Base Chmux.Parse Chmux.Recv Rch.Base Rch.BaseProofs Rch.Mpsc Rch.MpscProofs Rch.C04Link Run.RunBase.
+From Remoc Require Import Lib.Base Chmux.Parse Chmux.Recv Chmux.PortFlow Rch.Base Rch.BaseProofs Rch.BaseLink Rch.Mpsc Rch.MpscProofs Rch.C04Link Run.RunBase.
 
 (** The receiver's results are, send by send and in order, what each send means ([sent_spec]): for
     every codec, all limits on both sides, every item sequence with failing / oversized / cancelled
@@ -56,6 +56,17 @@ Proof. exact brun_prefix. Qed.
     framings quantified over. *)
 Theorem C04_canonical_framing : forall ck atts, Forall att_ok atts -> Framed atts (flat_map (att_frames ck) atts).
 Proof. exact att_frames_Framed. Qed.
+
+(** Link to the chmux port model (C01-C03): under EVERY schedule of the port whose user is a base sender
+    ([send], chunk sender, [connect], cancellation at every await; credit grants, queue slots, deliveries,
+    credit returns, closure) the frames handed over ARE such a framing -- of an attempt list whose complete
+    members are exactly the operations that returned Ok -- and the receiving side has taken a prefix. *)
+Theorem C04_port_emits_framings : forall c md mp acts,
+  cfg_ok c -> Forall base_act acts ->
+  let s := run acts (init c md mp) in
+  exists atts, Framed atts (emitted s) /\ completes atts = completed s /\
+               exists rest, emitted s = consumed s ++ rest.
+Proof. exact emitted_framed. Qed.
 
 (** The full statement (without [outside_known_class]) is FALSE for the current code: finding F12. *)
 Theorem C04_base_refuted :
@@ -132,6 +143,7 @@ Print Assumptions C04_base_values.
 Print Assumptions C04_base_attribution.
 Print Assumptions C04_base_prefix.
 Print Assumptions C04_canonical_framing.
+Print Assumptions C04_port_emits_framings.
 Print Assumptions C04_base_refuted.
 Print Assumptions C04_lr.
 Print Assumptions C04_mpsc_conservation.
